@@ -190,8 +190,8 @@ class Explorer:
             acts.append(("advance", None))
         if b["early"] > 0:
             for m in sorted(delayed, key=lambda m: (msg_label(v, m), m["id"])):
-                if locked and (m["payload"].get("retry_count") or 0) >= wr:
-                    continue
+                if (m["payload"].get("retry_count") or 0) >= wr:
+                    continue  # delivering the give-up attempt early only shortens the (already shortened) wait horizon
                 l = lab(m)
                 if l is not None:
                     acts.append(("early:" + l, m["id"]))
